@@ -113,7 +113,9 @@ func newSVGFam(tier string) *strFam {
 		{"mask", doc(`<mask id="a"/><rect mask="%s"/>`)},
 		{"marker-start", doc(`<marker id="a"/><path d="M0 0L1 1" marker-start="%s"/>`)},
 	} {
-		f.add(sp(a.tag, refAlpha, T(3, 4), "", ""), 8192, svgExec(a.tpl, true))
+		// small units: these spaces contain self references and 2-cycles (#a, #b), and the engine gives up
+		// on a unit after 200 dead workers; the graphs proper are in the svg-references family
+		f.add(sp(a.tag, refAlpha, T(3, 4), "", ""), 128, svgExec(a.tpl, true))
 	}
 
 	// style attribute and <style> element
